@@ -192,7 +192,28 @@ impl Prop for C05 {
 		(gen::fam(), any::<bool>())
 			.prop_flat_map(|(f, full)| {
 				let o = Opt::new(f).with_nonutf8(true);
-				(gen::reference(o, full), setop(o, full)).prop_map(move |(initial, op)| Case { fam: f, full, initial, op })
+				(gen::reference(o, full), setop(o, full), 0u8..10, proptest::collection::vec(gen::variant(), 1..=2)).prop_map(move |(initial, op, rel, vars)| {
+					// 20 %: the new value is an equal-but-not-identical spelling of the current one
+					// (a setter that compares before writing must still write)
+					let op = if rel < 2 {
+						let cur = split(&initial);
+						let eqv: Vec<gen::Variant> = vars.into_iter().filter(|v| matches!(v, gen::Variant::Encode(..) | gen::Variant::DecodeUnreserved(_) | gen::Variant::HexCase(_) | gen::Variant::EncodeWholeHost(_))).collect();
+						let mut v = cur.clone();
+						for x in &eqv {
+							v = gen::apply_variant(&v, x);
+						}
+						match op {
+							SetOp::Query(_) if v.query != cur.query => SetOp::Query(v.query),
+							SetOp::Fragment(_) if v.fragment != cur.fragment => SetOp::Fragment(v.fragment),
+							SetOp::Authority(_) if v.authority != cur.authority => SetOp::Authority(v.authority),
+							SetOp::Path(_) if v.path != cur.path => SetOp::Path(v.path),
+							other => other,
+						}
+					} else {
+						op
+					};
+					Case { fam: f, full, initial, op }
+				})
 			})
 			.boxed()
 	}
@@ -258,6 +279,60 @@ impl Prop for C05 {
 			SetOp::Fragment(_) => "set_fragment",
 		});
 		Ok(())
+	}
+
+	fn enumerate(_tier: Tier, shard: usize, nshards: usize, f: &mut dyn FnMut(Case, bool) -> bool) -> Vec<&'static str> {
+		// small complete product: every presence/emptiness combination x path forms x every setter x small value sets
+		let schemes: [Option<&str>; 2] = [None, Some("s")];
+		let auths: [Option<&str>; 4] = [None, Some(""), Some("h"), Some("u@h:1")];
+		let paths = ["", "/", "a", "/a", "a:b", "//a", "a/b", "/a//b", "./a:b", "/.//a"];
+		let qs: [Option<&str>; 3] = [None, Some(""), Some("q?/:")];
+		let fs: [Option<&str>; 3] = [None, Some(""), Some("f?/:")];
+		let mut ops: Vec<SetOp> = vec![];
+		for v in [None, Some("x"), Some("a1+")] {
+			ops.push(SetOp::Scheme(v.map(|s: &str| s.to_string())))
+		}
+		for v in [None, Some(""), Some("g"), Some("u:p@[::1]:8")] {
+			ops.push(SetOp::Authority(v.map(|s: &str| s.to_string())))
+		}
+		for v in ["", "/", "p", "/p", "a:b", "//x", "x//y", "./z:w", ":", "/:"] {
+			ops.push(SetOp::Path(v.to_string()))
+		}
+		for v in [None, Some(""), Some("r"), Some("a/b?c")] {
+			ops.push(SetOp::Query(v.map(|s: &str| s.to_string())))
+			;
+			ops.push(SetOp::Fragment(v.map(|s: &str| s.to_string())))
+		}
+		let mut i = 0usize;
+		for sc in schemes {
+			for au in auths {
+				for pa in paths {
+					for q in qs {
+						for fr in fs {
+							let (abs, sg) = crate::oracle::split::segs(pa);
+							let p = gen::repair(Parts { scheme: sc.map(|s| s.to_string()), authority: au.map(|s| s.to_string()), path: String::new(), query: q.map(|s| s.to_string()), fragment: fr.map(|s| s.to_string()) }, abs, sg, false);
+							let initial = recompose(&p);
+							for op in &ops {
+								for full in [false, true] {
+									if full && sc.is_none() {
+										continue;
+									}
+									i += 1;
+									if i % nshards != shard {
+										continue;
+									}
+									let fam = if i % 2 == 0 { Fam::Uri } else { Fam::Iri };
+									if !f(Case { fam, full, initial: initial.clone(), op: op.clone() }, true) {
+										return vec![];
+									}
+								}
+							}
+						}
+					}
+				}
+			}
+		}
+		vec!["2 schemes x 4 authorities x 10 path forms x 3 queries x 3 fragments x 29 setter calls x {reference, full}"]
 	}
 
 	fn floors(_tier: Tier) -> Vec<(&'static str, u64)> {
